@@ -6,7 +6,7 @@
    [regular] and visible in every statement that needs them; *_refuted show they cannot be dropped. *)
 From Coq Require Import ZArith List Bool Permutation.
 Import ListNotations.
-From SCMO Require Import Lib.PyInt Gen.GenBinCount Model.C12 Proofs.C12_dict Proofs.C12.
+From SCMO Require Import Lib.PyInt Gen.GenBinCount Model.C12 Model.C12x Proofs.C12_dict Proofs.C12 Proofs.C12x Proofs.C12m.
 Open Scope Z_scope.
 
 (* the job intervals of one contig tile [0, ceil(len/w)*w) in steps of w = bin_size*bins_per_job: consecutive,
@@ -163,3 +163,163 @@ Example C12_instance :
   /\ decl_total c g = 6.
 Proof. vm_compute. repeat split. Qed.
 Print Assumptions C12_instance.
+
+(* ======================================================================================================================
+   EXTENSION (a): get_binned_counts with user regions, exactly as coded (region start widened by fs = 1000, clipped at 0,
+   and reused as ownership bound; inclusive stop; one job per region; job results added).
+   [region_hit fs rg r]: record r = (reference_start, reference_end, site) is counted by the job of user region rg;
+   [region_mult fs regions r]: by how many regions. *)
+
+(* a record is counted by a region iff its site lies in the CLOSED window [max(0, start - fs), stop] and pysam fetches it
+   (it starts before stop and ends after the widened start) *)
+Theorem C12_region_hit_window : forall fs a stop lo hi s,
+  region_hit fs (a, stop) (lo, hi, s) = true
+  <-> Z.max 0 (a - fs) <= s <= stop /\ lo < stop /\ Z.max 0 (a - fs) < hi.
+Proof. exact region_hit_iff. Qed.
+Print Assumptions C12_region_hit_window.
+
+(* for a record whose site is inside its aligned span: site in [max(0,start-fs), stop), or exactly ON the stop while the
+   record starts before it *)
+Theorem C12_region_hit_inside : forall fs a stop lo hi s, lo <= s < hi ->
+  region_hit fs (a, stop) (lo, hi, s) = true
+  <-> (Z.max 0 (a - fs) <= s < stop) \/ (s = stop /\ lo < stop /\ Z.max 0 (a - fs) <= stop).
+Proof. exact region_hit_inside. Qed.
+Print Assumptions C12_region_hit_inside.
+
+(* EXACT table, for every region list (overlapping, adjacent, repeated, unsorted ...): bin b is reported with count n iff
+   n > 0 is the sum, over the records whose site falls in bin b, of the number of regions whose window contains the
+   record; reported bins are distinct; the total is the sum of the multiplicities *)
+Theorem C12_regions_exact : forall fs bin regions reads b n,
+  In (b, n) (region_counts fs bin regions reads)
+  <-> 0 < n /\ n = zsum (fun r => if g_region_bin (rsite r) bin =? b then region_mult fs regions r else 0) reads.
+Proof. exact regions_exact. Qed.
+Print Assumptions C12_regions_exact.
+
+Theorem C12_regions_total : forall fs bin regions reads,
+  NoDup (map fst (region_counts fs bin regions reads))
+  /\ zsum snd (region_counts fs bin regions reads) = zsum (region_mult fs regions) reads.
+Proof. intros fs bin regions reads. exact (conj (regions_keys_NoDup fs bin regions reads) (regions_total fs bin regions reads)). Qed.
+Print Assumptions C12_regions_total.
+
+(* regions whose windows [max(0,start-fs), stop] are pairwise disjoint (e.g. more than fs apart): every record is counted at
+   most once, and exactly the records hit by some region - the union of the WIDENED CLOSED windows, not of the user regions *)
+Theorem C12_regions_separated_once : forall fs regions r, regions_separated fs regions = true ->
+  0 <= region_mult fs regions r <= 1
+  /\ (region_mult fs regions r = 1 <-> exists rg, In rg regions /\ region_hit fs rg r = true).
+Proof. exact separated_once. Qed.
+Print Assumptions C12_regions_separated_once.
+
+Theorem C12_regions_far_apart : forall fs a b, 0 <= fs -> snd a + fs < fst b -> win_disjoint fs a b = true.
+Proof. exact far_apart_separated. Qed.
+Print Assumptions C12_regions_far_apart.
+
+(* a single region counts a record that lies OUTSIDE it (in the 1000 bp margin before its start) *)
+Theorem C12_regions_margin_refuted : exists fs bin regions reads b,
+  fs = 1000 /\ regions = [(2000, 4000)] /\ reads = [(1500, 1503, 1500)]
+  /\ (forall rg r, In rg regions -> In r reads -> ~ (fst rg <= rsite r < snd rg))
+  /\ In (b, 1) (region_counts fs bin regions reads).
+Proof. exact regions_margin_refuted. Qed.
+Print Assumptions C12_regions_margin_refuted.
+
+(* regions that do not touch but are closer than fs double count as well *)
+Theorem C12_regions_close_refuted : exists fs regions r,
+  fs = 1000 /\ regions = [(0, 2000); (2500, 4000)] /\ region_mult fs regions r = 2.
+Proof. exact regions_close_refuted. Qed.
+Print Assumptions C12_regions_close_refuted.
+
+Example C12_regions_instance :
+  let regions := [(5000, 6000); (1000, 2000); (7500, 8000)] in
+  let reads := [(1990, 2003, 2000); (2000, 2003, 2000); (10, 13, 12); (4100, 4103, 4100); (3999, 4002, 3999); (6400, 6410, 6400)] in
+  regions_separated 1000 regions = true
+  /\ map (region_mult 1000 regions) reads = [1; 0; 1; 1; 0; 0]
+  /\ region_counts 1000 1000 regions reads = [(4000, 1); (2000, 1); (0, 1)].
+Proof. vm_compute. repeat split. Qed.
+Print Assumptions C12_regions_instance.
+
+(* ======================================================================================================================
+   EXTENSION (b): count_methylation_binned on the same tiling (generate_commands jobs; fetch window, ownership test of every
+   aligned position, bin expressions, dyad shift and filter call REGENERATED from the source, names g_m_), merged by
+   MethylationCountMatrix.update, which OVERWRITES per (sample, location). *)
+
+(* exactly one owner: every call (aligned position) of a passing record is selected - record fetched, position owned - by
+   exactly one job of its contig, for every bin size, bins_per_job and max_fragment_size >= 0 *)
+Theorem C12_meth_once : forall c cn it, valid_cfg (mc c) = true -> m_regular c (mclen cn) (fst it) = true ->
+  m_passes c (fst it) = true -> In (snd it) (m_calls (fst it)) ->
+  zsum (fun jb => if msel c cn jb it then 1 else 0) (jobs_contig (mc c) (mclen cn)) = 1.
+Proof. exact msel_once. Qed.
+Print Assumptions C12_meth_once.
+
+(* the overwriting update never overwrites: for EVERY completion order and EVERY input (no hypothesis on the records) both
+   counters of a cell of the merged matrix are the sums of the per-job counters *)
+Theorem C12_meth_merge_is_sum : forall c g p k meth, valid_cfg (mc c) = true -> m_dyad c = false -> NoDup (map mcid g) ->
+  Permutation (m_all_jobs c g) p ->
+  fcnt (fmerge_all (map (m_count_job c) p)) k meth = zsum (fun j => fcnt (m_count_job c j) k meth) (m_all_jobs c g).
+Proof. exact m_merged_sum. Qed.
+Print Assumptions C12_meth_merge_is_sum.
+
+(* MAIN: every cell [n_unmethylated, n_methylated] of the merged matrix equals the declarative count of z / Z calls of
+   passing records at positions inside that bin with that sample (and strand) - no jobs, no order in the right-hand side *)
+Theorem C12_meth_matrix : forall c g p k, valid_cfg (mc c) = true -> m_dyad c = false -> NoDup (map mcid g) ->
+  m_regular_genome c g -> Permutation (m_all_jobs c g) p ->
+  fval (fmerge_all (map (m_count_job c) p)) k = m_decl c g k.
+Proof. exact m_matrix. Qed.
+Print Assumptions C12_meth_matrix.
+
+(* identical for every number of bins per job and every completion order *)
+Theorem C12_meth_invariant : forall c k1 k2 g p1 p2 key,
+  0 < c_b (mc c) -> 0 <= c_mfs (mc c) -> 0 < k1 -> 0 < k2 -> m_dyad c = false ->
+  NoDup (map mcid g) -> m_regular_genome c g ->
+  Permutation (m_all_jobs (m_set_k c k1) g) p1 -> Permutation (m_all_jobs (m_set_k c k2) g) p2 ->
+  fval (fmerge_all (map (m_count_job (m_set_k c k1)) p1)) key = fval (fmerge_all (map (m_count_job (m_set_k c k2)) p2)) key.
+Proof. exact m_invariant. Qed.
+Print Assumptions C12_meth_invariant.
+
+Theorem C12_meth_obtain : forall c g sched key, valid_cfg (mc c) = true -> m_dyad c = false -> NoDup (map mcid g) ->
+  m_regular_genome c g -> Permutation (seq 0 (length (m_all_jobs c g))) sched ->
+  fval (m_obtain c g sched) key = m_decl c g key.
+Proof. exact m_obtain_matrix. Qed.
+Print Assumptions C12_meth_obtain.
+
+Theorem C12_meth_pre_sound : forall c g, m_pre c g = true ->
+  valid_cfg (mc c) = true /\ m_dyad c = false /\ NoDup (map mcid g) /\ m_regular_genome c g.
+Proof. exact m_pre_sound. Qed.
+Print Assumptions C12_meth_pre_sound.
+
+(* dyad mode: the +1 shift of reverse-strand calls happens AFTER the ownership test, the shifted call of the last position
+   of a job is stored under the first bin of the NEXT job and overwritten by that job's result: the matrix depends on
+   bins_per_job (one call lost with 1 bin per job, none with 2) *)
+Theorem C12_meth_dyad_refuted : exists c g k1 k2 key,
+  m_dyad c = true /\ valid_cfg (mc (m_set_k c k1)) = true /\ valid_cfg (mc (m_set_k c k2)) = true /\ NoDup (map mcid g)
+  /\ m_regular_genome c g
+  /\ fval (m_run_id (m_set_k c k1) g) key <> fval (m_run_id (m_set_k c k2) g) key.
+Proof. exact m_dyad_refuted. Qed.
+Print Assumptions C12_meth_dyad_refuted.
+
+(* non-vacuity: two contigs, calls on job boundaries (positions 19 / 20 with 10 x 2 = 20 bp jobs), a reverse read, a
+   duplicate, a read 2 (counted: read1_only is off), other XM letters *)
+Example C12_meth_instance :
+  let c := mcfg0 10 2 false true in
+  let g := [ {| mcid := 1; mclen := 45; mreads := [mk_m 15 25 false [(15, 2); (19, 1); (20, 1); (24, 3)];
+                                                   mk_m 18 22 true [(19, 2); (20, 1); (21, 0)];
+                                                   {| m_lo := 18; m_hi := 22; m_r1 := false; m_qcfail := false; m_dup := false; m_mp := 0;
+                                                      m_mq := 60; m_sample := 2; m_rev := false; m_calls := [(19, 1)] |};
+                                                   {| m_lo := 18; m_hi := 22; m_r1 := true; m_qcfail := false; m_dup := true; m_mp := 0;
+                                                      m_mq := 60; m_sample := 2; m_rev := false; m_calls := [(19, 1)] |};
+                                                   mk_m 40 45 false [(44, 1)]] |};
+             {| mcid := 2; mclen := 10; mreads := [mk_m 0 10 true [(0, 2); (9, 2)]] |} ] in
+  m_pre c g = true
+  /\ m_obtain c g [3; 0; 2; 1]%nat
+     = [((1, (2, 2, 0, 10)), (2, 0)); ((1, (1, 1, 10, 20)), (1, 1)); ((1, (2, 1, 10, 20)), (1, 0)); ((2, (1, 1, 10, 20)), (0, 1));
+        ((1, (1, 1, 40, 45)), (0, 1)); ((1, (1, 1, 20, 30)), (0, 1)); ((1, (2, 1, 20, 30)), (0, 1))]
+  /\ m_decl_total c g = 9.
+Proof. vm_compute. repeat split. Qed.
+Print Assumptions C12_meth_instance.
+
+(* get_binned_counts_prefixed / _generate_count_dict_prefixed: the same widening, ownership test and bin expression
+   (regenerated separately), hence the same exact table and the same refutations *)
+Theorem C12_regions_prefixed_same :
+  (forall start fs, g_pregion_start start fs = g_region_start start fs)
+  /\ (forall cut start stop, g_pregion_skip cut start stop = g_region_skip cut start stop)
+  /\ (forall cut bin, g_pregion_bin cut bin = g_region_bin cut bin).
+Proof. exact pregion_same. Qed.
+Print Assumptions C12_regions_prefixed_same.
